@@ -189,3 +189,74 @@ func reachesPublication(f *ssa.Function, depth int, seen map[*ssa.Function]bool)
 	}
 	return ""
 }
+
+// rulePoolLifetime: memory taken from a sync.Pool is not used after it has
+// been put back (another goroutine may Get it at once).
+func rulePoolLifetime(c *Ctx) {
+	p := c.P
+	n := 0
+	for _, f := range p.moduleFuncs() {
+		name := ssaFuncName(f)
+		for _, b := range f.Blocks {
+			for i, in := range b.Instrs {
+				var cc *ssa.CallCommon
+				deferred := false
+				switch x := in.(type) {
+				case *ssa.Call:
+					cc = x.Common()
+				case *ssa.Defer:
+					cc = x.Common()
+					deferred = true
+				}
+				if cc == nil {
+					continue
+				}
+				cal := cc.StaticCallee()
+				if cal == nil || cal.String() != "(*sync.Pool).Put" {
+					continue
+				}
+				n++
+				if deferred {
+					c.Oblige("X.pool-lifetime", true, in.Pos(), name, "pooled memory returned by a deferred Put", "the Put runs when the function returns, after every use", nil)
+					continue
+				}
+				// the pooled value
+				v := cc.Args[1]
+				if mi, ok := v.(*ssa.MakeInterface); ok {
+					v = mi.X
+				}
+				used := ""
+				seen := map[*ssa.BasicBlock]bool{}
+				uses := func(in2 ssa.Instruction) bool {
+					for _, op := range in2.Operands(nil) {
+						if *op == v {
+							return true
+						}
+					}
+					return false
+				}
+				var visit func(bb *ssa.BasicBlock, from int)
+				visit = func(bb *ssa.BasicBlock, from int) {
+					for _, in2 := range bb.Instrs[from:] {
+						if _, isDbg := in2.(*ssa.DebugRef); isDbg {
+							continue
+						}
+						if uses(in2) {
+							used = in2.String()
+						}
+					}
+					for _, s := range bb.Succs {
+						if !seen[s] {
+							seen[s] = true
+							visit(s, 0)
+						}
+					}
+				}
+				visit(b, i+1)
+				c.Oblige("X.pool-lifetime", used == "", in.Pos(), name, "no use of pooled memory after Put",
+					"once a scratch object is back in the sync.Pool another goroutine can Get it: it must not be used afterwards ("+used+")", nil)
+			}
+		}
+	}
+	c.Floor("X.pool-lifetime", 2)
+}
